@@ -185,5 +185,13 @@ class Program:
         return [b for b in self.bodies() if pred(b)]
 
 
+_loaded = {}
+
+
 def load(repo=REPO, work=WORK):
-    return Program(facts_dir(repo, work))
+    """One Program per facts directory and process (rule results are cached per Program object)."""
+    d = facts_dir(repo, work)
+    if d not in _loaded:
+        _loaded.clear()
+        _loaded[d] = Program(d)
+    return _loaded[d]
